@@ -195,6 +195,20 @@ def patch_rules(facts, rep, rule="C01-PATCH"):
                   "stats.%s reset when an entry is opened" % k,
                   "stats.%s is not (re)initialised in the entry-opening function%s" % (k, (": " + show(v[2])[:80]) if v else ""))
     rep.floor(rule, 7)
+    # closing an entry READS the accounting (hasher.clone().finalize(), bytes_written) and never consumes or resets it: the close
+    # runs again when the next start is rejected (long name) or at finish(), and must then patch the same values
+    ffn = facts.one(ZW + "finish_file$")
+    muts = []
+    for b_, si_, s_ in ffn.stmts():
+        if s_["k"] == "assign":
+            fp_ = [q.get("n") for q in s_["place"]["p"] if q["k"] == "field"]
+            if fp_[:1] == ["stats"]:
+                muts.append("assigns self.%s" % ".".join(fp_))
+            rv_ = s_["rv"]
+            if rv_["k"] in ("ref", "rawptr") and rv_.get("mut") and [q.get("n") for q in rv_["place"]["p"] if q["k"] == "field"][:1] == ["stats"]:
+                muts.append("borrows self.%s mutably" % ".".join(q.get("n") for q in rv_["place"]["p"] if q["k"] == "field"))
+    ok &= rep.check(not muts, rule, "finish_file:accounting-read-only", where(ffn, ffn.span), "finish_file only reads stats.hasher / stats.bytes_written / stats.start",
+                    "finish_file %s: a second close of the same entry (after a rejected start, or at finish) patches different values" % sorted(set(muts))[:2])
     return ok
 
 
